@@ -1,7 +1,7 @@
 (** * C03 -- in all-compliant mode every instance conforms to its extracted shape *)
 From Coq Require Import List Ascii String ZArith NArith Bool.
 From Shexer Require Import Lib.PyStr Lib.Dict Lib.Bin64 Gen.Consts Spec.Rdf Spec.ShexSem Model.Tracker Model.Profiler
-     Model.Freq Model.FreqInst Model.Shexing Model.Run Model.SchemaOf Model.C03Dom Proofs.Bin64Round Proofs.FreqLaws Proofs.ConformProofs Proofs.ConformSat Proofs.ConformModes.
+     Model.Freq Model.FreqInst Model.Shexing Model.Run Model.SchemaOf Model.C03Dom Proofs.Bin64Round Proofs.FreqLaws Proofs.ConformProofs Proofs.ConformSat Proofs.ConformModes Proofs.ConformBridge.
 Import ListNotations.
 
 (** ** T1 -- switching the mode off never changes a cardinality.
@@ -131,7 +131,59 @@ Theorem C03_opt_at_most_one : forall cfg (A : Type) insts_of cntf (thr : F BAlg)
 Proof. exact (opt_at_most_one BAlg _ _ BAlg_laws). Qed.
 Print Assumptions C03_opt_at_most_one.
 
-(** ** T4 -- conformance on the strict domain (PARTIAL: conditional on the
+(** ** T4 -- CONFORMANCE on the strict domain, no profile premise.
+
+    For every graph of fewer than 2^53 triples in the property's strict domain
+    ([strict_domb], Model/C03Dom.v: faithful node identifiers -- blank-node
+    identifiers start with "_:" --, distinct shape labels for distinct classes,
+    no duplicate triple, proper literal datatypes, classes are IRIs and are not
+    instances, and per (class, direction, property) the non-literal neighbours
+    have one node kind and are all untyped or all instances of exactly one
+    class) and every configuration with keep_less_specific, all-compliant mode,
+    no disjunctions, all-classes mode, no instance cap, the default shapes
+    namespace, threshold 0 -- and ANY value of inverse_paths,
+    allow_opt_cardinality, disable_exact_cardinality,
+    discard_useless_constraints_with_positive_closure, remove_empty_shapes,
+    disable_comments, report mode, namespaces: if the run succeeds, the instance
+    typing is a VALID TYPING of the extracted schema (every cardinality holds
+    for every instance, every value over a mentioned path matches a constraint,
+    references resolved in the same typing).  Binary64 frequencies.
+    The premise [profile_exact] of [C03_conformance_partial] is discharged by
+    Proofs/ConformBridge.v from the profile characterisation P1
+    ([profile_final_char], [profile_final_complete], [occ_exact_le_plus]) and
+    the tracker characterisation ([track_plain_char], [track_insts_ok]). *)
+Theorem C03_conformance : forall c g ns shapes,
+  (N.of_nat (List.length g) < 2 ^ 53)%N ->
+  r_keep_less_specific c = true -> r_all_compliant c = true -> r_disable_or c = true ->
+  r_targets c = None -> (r_cap c <= 0)%Z -> r_shapes_ns c = c_SHAPES_DEFAULT_NAMESPACE ->
+  strict_domb (r_tau c) (r_shapes_ns c) g = true ->
+  run_shapes BAlg c (thr_val BAlg 0 1) g = inl (ns, shapes) ->
+  valid_typing (schema_of (r_tau c) shapes) g (instance_typing (r_tau c) (r_shapes_ns c) g).
+Proof.
+  intros c g ns shapes Hlen.
+  apply (run_conformance_full BAlg _ _ BAlg_laws c g ns shapes
+           (conj (eq_refl : (0 ?= 1)%N = Lt) (eq_refl : (1 ?= 2 ^ 53)%N = Lt))).
+  intros d H0 Hd. split; [exact H0 | eapply N.le_lt_trans; eassumption].
+Qed.
+Print Assumptions C03_conformance.
+
+(** the same with exact rational frequencies: no bound on the size of the graph *)
+Theorem C03_conformance_exact : forall c g ns shapes,
+  r_keep_less_specific c = true -> r_all_compliant c = true -> r_disable_or c = true ->
+  r_targets c = None -> (r_cap c <= 0)%Z -> r_shapes_ns c = c_SHAPES_DEFAULT_NAMESPACE ->
+  strict_domb (r_tau c) (r_shapes_ns c) g = true ->
+  run_shapes QAlg c (thr_val QAlg 0 1) g = inl (ns, shapes) ->
+  valid_typing (schema_of (r_tau c) shapes) g (instance_typing (r_tau c) (r_shapes_ns c) g).
+Proof.
+  intros c g ns shapes.
+  apply (run_conformance_full QAlg _ _ QAlg_laws c g ns shapes (eq_refl : (0 ?= 1)%N = Lt)).
+  intros d H0 _. exact H0.
+Qed.
+Print Assumptions C03_conformance_exact.
+
+(** ** T4, the intermediate form with the profile characterisation as a premise
+    (kept: it also covers target-class mode / instance caps / other shapes
+    namespaces whenever the premise holds; PARTIAL: conditional on the
     profile characterisation).
 
     [strict_domb tau shapes_ns G] is the property's strict domain as a boolean
